@@ -283,6 +283,10 @@ pub fn suite_http(dir: &str, seed: u64, thorough: bool, st: &mut Stats) {
                         if d[..] != file[o as usize..o as usize + s] { st.violation("C08", &format!("chunk {} delivered short, shifted or duplicated", k), &line); }
                     }
                 }
+                // a transfer that could not be completed ends with an error item, never silently
+                if items.len() < ranges.len() && !matches!(items.last(), Some(Err(_))) {
+                    st.violation("C08", "the chunk stream ended early without an error", &line);
+                }
                 // resumed requests start at the first byte not yet received
                 for w in log.windows(2) {
                     let (a0, s0) = w[0];
